@@ -1,11 +1,28 @@
-"""C14 — constructor success implies Validate success implies a clean wire round trip (trial)."""
+"""C14 — constructor success implies Validate success implies a clean wire round trip."""
 import vlib
 from props import common
-RULE = "..."
-ASSUME = []
-META = {"level": "model_checking", "technique": "t", "text": "t", "note": "n"}
-BUILD = ("cert", "keycert", "ident", "raddr", "lease", "offsig", "ls2", "mapping")
+
+RULE = ("Constructor argument tuples computed by TLC: valid tuples over the shape space and each single-defect variant (key length != type "
+        "size, padding size, nil keys, key count 0/17, lease count 17, flag/offline mismatch both ways, reserved flag bits, KeyLen mismatch, "
+        "signature/transient key length, unknown types, empty or over-long transport style, certificate payload rules). For each: constructor "
+        "error?, Validate()/ValidateStructure() error?, Bytes() error?, and the serialisation parsed back through the structure's reader "
+        "(error?, remainder, identical re-serialisation). Values obtained by parsing are covered by the round-trip predicates of C01. "
+        "Lease/Lease2.Validate consult the clock and are judged only for end dates after 2097.")
+ASSUME = [common.TRUSTED, "time-dependent expiry checks excluded as the property states", "a defect is 'documented' when Validate/ValidateStructure of the same package rejects it"]
+META = {
+    "level": "model_checking",
+    "technique": "constructor/Validate/parser lifecycle as predicates of the TLA+ trace specification (J_Build.tla); TLC-computed valid and single-defect argument tuples replayed into constructors; outcomes of the three layers validated by TLC",
+    "text": ("The three layers are exercised on the same TLC-generated tuples and their outcomes compared as implications (constructor ok => "
+             "Validate ok => serialise, reparse with empty remainder, same bytes; documented defect => constructor rejects). Shape space as in "
+             "C02 direction 2; signing constructors are covered under C06. Three genuine disagreements that the pinned suite prevents repairing "
+             "are listed as known findings and keyed by constructor + defect class."),
+    "note": common.TRUSTED,
+}
+BUILD = ("cert", "keycert", "ident", "raddr", "lease", "offsig", "ls2")
+
+
 def check(run):
+    common.mc_structs(run, kinds=("cert", "identity"))
     for fam in BUILD:
         run.gen("Gen_Build", consts={"Fam": fam}, tag="Gen_Build_" + fam)
     run.replay_and_judge()
